@@ -700,6 +700,21 @@ impl Monitor for C12 {
         };
         let mut g = gen_graph(rng, lt, size);
         rep.inc("graphs");
+        if self.mode == "wellformed" && rng.chance(1, 4) {
+            // gates defined through their odd literal (`7 = 2 & 4`: variable 3 is the NAND): legal in an
+            // `Aig`, accepted by the ASCII parser; references of both polarities stay as generated
+            let mut flipped = 0u64;
+            for a in g.ands.iter_mut() {
+                if rng.chance(1, 2) {
+                    a.0 ^= 1;
+                    flipped += 1;
+                }
+            }
+            if flipped > 0 {
+                rep.inc("graphs_with_gates_defined_by_an_odd_literal");
+                rep.count("gates_defined_by_an_odd_literal", flipped);
+            }
+        }
         rep.inc(&format!("lit:{}", PK::Aag.lit_name(lt)));
         // every defined literal, both polarities, plus the constants
         let mut query: Vec<u64> = vec![0, 1];
